@@ -18,8 +18,7 @@
    list of their ids.  Fluents, objects and parameters are symbol numbers.  Fraction payloads are kept reduced
    (Python's Fraction always is), so Leibniz equality on [payload] is Python's == on payloads of one operator.
    Outside the model: floats that are not exact binary fractions of small size, Int(True) (bool is an int in
-   Python), Timing/Presence/Dot/quantifier nodes, bounded fluent types, int/int point quotients that are not
-   integers (the type checker goes through a float there; DESIGN #21, property C15). *)
+   Python), Timing/Presence/Dot/quantifier nodes, bounded fluent types. *)
 From Coq Require Import List ZArith NArith QArith Bool.
 Import ListNotations.
 Open Scope N_scope.
@@ -379,14 +378,27 @@ Definition common_ancestor (D : decls) (a b : N) : bool := existsb (fun x => mem
 
 (* TypeChecker.walk_equals: the loop body for one argument x, first argument's type t; false = "return None" *)
 Definition equals_arg_ok (D : decls) (t x : ty) : bool :=
-  match t with
-  | TUser a =>
-      match x with
-      | TUser b => (a =? b) || compat D t x || compat D x t || common_ancestor D a b
-      | _ => true                      (* as in the code: a non-user right operand is not looked at *)
-      end
-  | TNum _ _ => is_num x
-  | TBool => true
+  match t, x with
+  | TUser a, TUser b => (a =? b) || compat D t x || compat D x t || common_ancestor D a b
+  | TUser _, _ => false                (* a user-typed term is comparable only with a user-typed term ... *)
+  | _, TUser _ => false                (* ... whichever side it is on *)
+  | _, _ => is_num x                   (* t numeric: x must be numeric (bool t raised before) *)
+  end.
+
+(* TypeChecker.walk_times on point-or-unbounded operands: _bound_product multiplies finite bounds exactly and
+   takes 0 * inf = 0, so a factor that is the point 0 makes the product the point 0 *)
+Definition times_step (acc x : option Q) : option Q :=
+  match acc, x with
+  | Some a, Some b => Some (Qred (a * b))
+  | Some a, None => if Qeq_bool a 0 then Some 0%Q else None
+  | None, Some b => if Qeq_bool b 0 then Some 0%Q else None
+  | None, None => None
+  end.
+
+Definition times_pt (tys : list ty) : option Q :=
+  match tys with
+  | [] => None
+  | t0 :: rest => fold_left (fun acc t => times_step acc (pt_of t)) rest (pt_of t0)
   end.
 
 Definition typecheck (D : decls) (t : list node) (c : content) : tcres :=
@@ -420,8 +432,7 @@ Definition typecheck (D : decls) (t : list node) (c : content) : tcres :=
           else TErr EType
       | OTimes =>
           if forallb is_num tys
-          then TOk (TNum (existsb is_real tys)
-                         (match all_pts tys with Some vs => Some (Qred (fold_left Qmult vs 1%Q)) | None => None end))
+          then TOk (TNum (existsb is_real tys) (times_pt tys))
           else TErr EType
       | OMinus =>
           match tys with
